@@ -24,7 +24,7 @@ EXPLANATION = (
     "carries the time-step counter; the dap column carries the state's dap. C07.d: the planting / harvest year lists "
     "derived at initialisation are not mutated in place while another name aliases the same list. C07.e: crop_mature is set only under `<clock> >= crop.Maturity` "
     "where the clock's normal form is the state's own days-after-planting (under CalendarType == 1) or cumulative degree days (under "
-    "CalendarType == 2) of that day - not a delay-adjusted or otherwise shifted clock - and both calendar types are covered. C07.f: crop_mature, crop_dead, harvest_flag and dap are cleared on every path of the season reset (literal setattr loops are expanded). C07.g: the growing-season window excludes the step that starts on the harvest date (the summary is written on the step that ends on it), so the season's length does not depend on the off-season flag. C07.h: the day offset from which a missing harvest date is derived (kept as month/day; seasons recur yearly) has a constant bound <= 364 - a larger offset wraps round the year and cuts every season short. C07.j: both 'another season follows' tests of update_time have the normal form season_counter < n_seasons - 1 on the clock's current counter. C07.k: for a crop whose season lies within a calendar year the last calendar year of the window is dropped from the schedule exactly when the end date (month/day) is on or before the planting day - the test is resolved through locals and negations, its two sides by provenance (end date vs planting date, not the start or harvest date). C07.l: growing_season = True is reached only under planting date reached, harvest date not reached, crop not mature and crop not dead (C07.g now reads chained comparisons and comparisons held in locals too). C07.m (the run always terminates - inner loops; T-LOOP, shared with C16.n): every while loop has a visible reason to stop (stepped counter against an invariant bound on every cycle, countdown, counter-driven flag, listed derived / delegated / guarded convergence loops). C07.n: the days to maturity from which a missing latest harvest date is derived are read from the calendar computed for this window (the result of compute_crop_calendar), not from the crop object's tabulated attribute (backward slice of the day offset). NOT decided: the remaining "
+    "CalendarType == 2) of that day - not a delay-adjusted or otherwise shifted clock - and both calendar types are covered. C07.f: crop_mature, crop_dead, harvest_flag and dap are cleared on every path of the season reset (literal setattr loops are expanded). C07.g: the growing-season window excludes the step that starts on the harvest date (the summary is written on the step that ends on it), so the season's length does not depend on the off-season flag. C07.h: the day offset from which a missing harvest date is derived (kept as month/day; seasons recur yearly) has a constant bound <= 364 - a larger offset wraps round the year and cuts every season short. C07.j: both 'another season follows' tests of update_time have the normal form season_counter < n_seasons - 1 on the clock's current counter. C07.k: for a crop whose season lies within a calendar year the last calendar year of the window is dropped from the schedule exactly when the end date (month/day) is on or before the planting day - the test is resolved through locals and negations, its two sides by provenance (end date vs planting date, not the start or harvest date). C07.l: growing_season = True is reached only under planting date reached, harvest date not reached, crop not mature and crop not dead (C07.g now reads chained comparisons and comparisons held in locals too). C07.m (the run always terminates - inner loops; T-LOOP, shared with C16.n): every while loop has a visible reason to stop (stepped counter against an invariant bound on every cycle, countdown, counter-driven flag, listed derived / delegated / guarded convergence loops). C07.n: the days to maturity from which a missing latest harvest date is derived are read from the calendar computed for this window (the result of compute_crop_calendar), not from the crop object's tabulated attribute (backward slice of the day offset). C07.o: the branch of read_model_parameters that makes the harvest years equal to the planting years (season within one calendar year) is taken exactly when the planting month/day lies strictly before the latest harvest month/day - a harvest date on the planting day itself is a season of a full year (test resolved through locals and negations, sides by provenance). NOT decided: the remaining "
     "planting / harvest year arithmetic itself (numeric).")
 
 L = frozenset
@@ -362,7 +362,7 @@ def rule_e(chk, prog):
 SEASON_FLAGS = {"crop_mature": False, "crop_dead": False, "harvest_flag": False, "dap": 0}
 
 
-def rule_f(chk, prog):
+def rule_f(chk, prog, rule="C07.f", flags=None):
     """C07.f: a season ends early only if *its* crop has died / matured / was harvested: the per-season progress flags and the
     days-after-planting counter are cleared by the season reset on every path (a flag left from the previous season ends the new
     season on its planting day)."""
@@ -371,6 +371,7 @@ def rule_f(chk, prog):
     where = f"{fi.module}:{fi.qualname}"
     flow = flow_of(fi)
     cfg = flow.cfg
+    SEASON_FLAGS = flags if flags is not None else globals()["SEASON_FLAGS"]
     found = {}
     for sto in stores(prog, fi, None):
         if sto.kind == "attr" and sto.field in SEASON_FLAGS:
@@ -387,13 +388,13 @@ def rule_f(chk, prog):
         construct = f"<state>.{f} = {val!r} on every path of the season reset"
         nodes = {n for n in found.get(f, set()) if n is not None}
         if not nodes:
-            chk.violation("C07.f", where, construct, f"the season reset does not clear {f}: the value left by the previous season (e.g. a crop that died) "
+            chk.violation(rule, where, construct, f"the season reset does not clear {f}: the value left by the previous season (e.g. a crop that died) "
                           "decides the new season's first day", loc=fi.loc())
         elif cfg.paths_exist_avoiding(cfg.entry, cfg.exit, nodes):
-            chk.violation("C07.f", where, construct, f"{f} is cleared on some paths of the season reset only", loc=fi.loc())
+            chk.violation(rule, where, construct, f"{f} is cleared on some paths of the season reset only", loc=fi.loc())
         else:
-            chk.ok("C07.f", where, construct, "cleared unconditionally")
-    chk.floor("C07.f", len(found), 3, "season flags cleared by the reset")
+            chk.ok(rule, where, construct, "cleared unconditionally")
+    chk.floor(rule, len(found), min(3, len(SEASON_FLAGS)), "season fields cleared by the reset")
 
 
 def rule_g(chk, prog):
@@ -855,6 +856,71 @@ def rule_k(chk, prog):
     chk.floor("C07.k", sites, 1, "statements of read_model_parameters that drop the last calendar year of the window")
 
 
+def rule_o(chk, prog):
+    """C07.o (seasons begin on the planting day of consecutive years - the season that lasts a whole year): read_model_parameters decides
+    from the month/day of the planting and of the latest harvest date whether a season lies within one calendar year (harvest year =
+    planting year) or runs over New Year (harvest year = planting year + 1). A latest harvest date on the planting day itself is the end of a
+    season that lasts a full year: the single-year branch - the one that makes the harvest years equal to the planting years - is taken
+    exactly when planting < harvest, strictly. The test is resolved through single-definition locals and negations, its sides by provenance."""
+    f = prog.find_func("read_model_parameters")
+    flow = flow_of(f)
+    cfg = flow.cfg
+    where = f"{f.module}:{f.qualname}"
+    chk.fn(f.key)
+    parents = {}
+    for n in ast.walk(f.node):
+        for c in ast.iter_child_nodes(n):
+            parents[id(c)] = n
+    n_sites = 0
+    for a in walk_no_nested(f.node):
+        # the single-year branch: `<harvest years> = <plant years>` (a plain copy of one list name to another)
+        if not (isinstance(a, ast.Assign) and len(a.targets) == 1 and isinstance(a.targets[0], ast.Name) and isinstance(a.value, ast.Name)
+                and "harvest" in a.targets[0].id.lower() and "plant" in a.value.id.lower()):
+            continue
+        child, par = a, parents.get(id(a))
+        while par is not None and not isinstance(par, ast.If):
+            child, par = par, parents.get(id(par))
+        if par is None:
+            continue
+        n_sites += 1
+        positive = any(child is x for x in par.body)
+        test, tnid = par.test, flow.node_of(par.test)
+        for _ in range(6):
+            if isinstance(test, ast.UnaryOp) and isinstance(test.op, ast.Not):
+                test, positive = test.operand, not positive
+            elif isinstance(test, ast.Name) and (tnid is not None or flow.node_of(test) is not None):
+                tnid = tnid if tnid is not None else flow.node_of(test)
+                ds = [d for d in flow.defs_reaching(test.id, tnid) if d != ENTRY]
+                b = cfg.nodes[ds[0]].ast if len(ds) == 1 else None
+                if isinstance(b, ast.Assign):
+                    test, tnid = b.value, ds[0]
+                else:
+                    break
+            else:
+                break
+        construct = f"{norm(a)} under `{norm(par.test)[:60]}`"
+        if not (isinstance(test, ast.Compare) and len(test.ops) == 1 and type(test.ops[0]) in (ast.Lt, ast.LtE, ast.Gt, ast.GtE)):
+            chk.violation("C07.o", where, construct, "the test that classifies the season does not resolve to one ordering comparison of two dates", loc=f.loc(par))
+            continue
+        lp, rp = _provenance(f, flow, test.left, tnid), _provenance(f, flow, test.comparators[0], tnid)
+        op = type(test.ops[0])
+        if not positive:
+            op = {ast.Lt: ast.GtE, ast.LtE: ast.Gt, ast.Gt: ast.LtE, ast.GtE: ast.Lt}[op]
+        if lp == {"HARVEST"} and rp == {"PLANT"}:
+            lp, rp = rp, lp
+            op = {ast.Lt: ast.Gt, ast.LtE: ast.GtE, ast.Gt: ast.Lt, ast.GtE: ast.LtE}[op]
+        sym = {ast.Lt: "<", ast.LtE: "<=", ast.Gt: ">", ast.GtE: ">="}[op]
+        detail = f"{construct}  [single-year branch taken when ({'/'.join(sorted(lp)) or '?'}) {sym} ({'/'.join(sorted(rp)) or '?'})]"
+        if lp == {"PLANT"} and rp == {"HARVEST"} and op is ast.Lt:
+            chk.ok("C07.o", where, detail, "within one calendar year exactly when the planting day lies strictly before the latest harvest day")
+        elif lp == {"PLANT"} and rp == {"HARVEST"}:
+            chk.violation("C07.o", where, detail, "a latest harvest date on the planting day itself (a season of a full year) is classified as lying within one calendar "
+                          "year: every season's latest harvest date coincides with its own planting date and no day is a growing day", loc=f.loc(par))
+        else:
+            chk.violation("C07.o", where, detail, "the classification does not compare the planting day with the latest harvest day", loc=f.loc(par))
+    chk.floor("C07.o", n_sites, 1, "single-year branches (harvest years = planting years) in read_model_parameters")
+
+
 def _affine_is(text: str, coefs, const) -> bool:
     """does the printed normal form consist of exactly the given atoms (by suffix) with these integer coefficients plus the constant?"""
     import re
@@ -889,6 +955,7 @@ def run(chk, prog, tier):
     rule_i(chk, prog)
     rule_j(chk, prog)
     rule_k(chk, prog)
+    rule_o(chk, prog)
     season_flag_guards(chk, prog, "C07.l")
     from ._loops import loop_variants
     chk.floor("C07.m", loop_variants(chk, prog, "C07.m"), 18, "while loops of the package classified by their reason to stop")
